@@ -548,7 +548,8 @@ def rules_eval(SL, quad_order, eng=None, res=None):
     return None
 
 
-def run(out):
+def run(out, only=None):
+    """`only`: restrict to the named parts (used when C01 supports another property, vf/support.py)."""
     quick = out.tier == 'quick'
     maxl, units = (4, 16) if quick else (5, 32)   # cell sizes 1, 2, 4, 8, 16 (32): size ratios up to 16 (32)
     cells_open = dyadic_cells(maxl, 0, units)
@@ -564,6 +565,8 @@ def run(out):
         report.merge_worker(out, r, part='P1 panels glued=%s' % c[0])
     for name, fn in (('P5 time kernel', 'timekernel_worker'), ('P4 closed forms', 'closedform_worker'),
                      ('P2 variables', 'variables_worker'), ('P3 recursion', 'recursion_worker')):
+        if only and name[:2] not in only:
+            continue
         for r in report.pmap('checks.c01', fn, [0]):
             report.merge_worker(out, r, part=name)
     rr = [4, 12] if quick else [4, 6, 8, 12]
